@@ -39,26 +39,28 @@ func c17UpstreamCerts(c *Ctx) {
 	kinds := []struct{ scheme, transport string }{{"tls", "tls"}, {"tls+pipeline", "tls"}, {"https", "https"}, {"h3", "h3"}, {"quic", "quic"}}
 	certs := []string{"valid", "wrong-name", "unknown-ca", "expired", "self-signed"}
 	options := []string{"ca", "system-roots", "skip-verify"}
-	mkLeaf := func(kind string) *pki.Leaf {
+	// every server has its own host name (upstreams with identical tls settings but different URL
+	// hosts must each present and verify their own name)
+	mkLeaf := func(kind, host string) *pki.Leaf {
 		var l *pki.Leaf
 		switch kind {
 		case "valid":
-			l, _ = ca1.Leaf(pki.LeafOpt{Names: []string{"up.test"}})
+			l, _ = ca1.Leaf(pki.LeafOpt{Names: []string{host}})
 		case "wrong-name":
-			l, _ = ca1.Leaf(pki.LeafOpt{Names: []string{"other.test"}})
+			l, _ = ca1.Leaf(pki.LeafOpt{Names: []string{"other.test", "up0.test"}}) // also valid for the first server's name, not for this one
 		case "unknown-ca":
-			l, _ = ca2.Leaf(pki.LeafOpt{Names: []string{"up.test"}})
+			l, _ = ca2.Leaf(pki.LeafOpt{Names: []string{host}})
 		case "expired":
-			l, _ = ca1.Leaf(pki.LeafOpt{Names: []string{"up.test"}, Expired: true})
+			l, _ = ca1.Leaf(pki.LeafOpt{Names: []string{host}, Expired: true})
 		case "self-signed":
-			l, _ = ca1.Leaf(pki.LeafOpt{Names: []string{"up.test"}, SelfSigned: true})
+			l, _ = ca1.Leaf(pki.LeafOpt{Names: []string{host}, SelfSigned: true})
 		}
 		return l
 	}
 	type cell struct {
 		tag, scheme, cert, option string
 		srv                       *fakeup.Server
-		port                      string
+		port, host                string
 		want                      bool
 	}
 	var cells []*cell
@@ -76,7 +78,8 @@ func c17UpstreamCerts(c *Ctx) {
 	n := 0
 	for _, k := range kinds {
 		for _, ct := range certs {
-			leaf := mkLeaf(ct)
+			host := fmt.Sprintf("up%d.test", len(servers))
+			leaf := mkLeaf(ct, host)
 			s := fakeup.NewServer(fmt.Sprintf("srv-%s-%s", k.scheme, ct))
 			cfg := &tls.Config{Certificates: []tls.Certificate{leaf.TLS}}
 			var err error
@@ -100,14 +103,14 @@ func c17UpstreamCerts(c *Ctx) {
 			for _, op := range options {
 				tag := fmt.Sprintf("c%d", n)
 				n++
-				cl := &cell{tag: tag, scheme: k.scheme, cert: ct, option: op, srv: s, port: port}
+				cl := &cell{tag: tag, scheme: k.scheme, cert: ct, option: op, srv: s, port: port, host: host}
 				cl.want = op == "skip-verify" || (op == "ca" && ct == "valid") || (op == "system-roots" && ct == "unknown-ca")
 				cells = append(cells, cl)
 				path := ""
 				if k.transport == "https" || k.transport == "h3" {
 					path = "/dns-query"
 				}
-				fmt.Fprintf(&y, "  - tag: %s\n    addr: \"%s://up.test:%s%s\"\n    dial_addr: \"%s\"\n", tag, k.scheme, port, path, addr)
+				fmt.Fprintf(&y, "  - tag: %s\n    addr: \"%s://%s:%s%s\"\n    dial_addr: \"%s\"\n", tag, k.scheme, host, port, path, addr)
 				switch op {
 				case "ca":
 					fmt.Fprintf(&y, "    tls:\n      ca: \"%s\"\n", ca1Path)
@@ -159,7 +162,7 @@ func c17UpstreamCerts(c *Ctx) {
 	reps := c.N(2, 4)
 	all := make([]c17CertCell, len(cells))
 	for i, cl := range cells {
-		all[i] = c17CertCell{cl.tag, cl.scheme, cl.cert, cl.option, cl.srv, cl.port, cl.want}
+		all[i] = c17CertCell{cl.tag, cl.scheme, cl.cert, cl.option, cl.srv, cl.port, cl.host, cl.want}
 	}
 	// Directed sequences first, strictly one query at a time: on each server the upstreams that
 	// differ only in their trust settings take turns (ca, system-roots, skip-verify, system-roots,
@@ -186,7 +189,7 @@ func c17UpstreamCerts(c *Ctx) {
 type c17CertCell struct {
 	tag, scheme, cert, option string
 	srv                       *fakeup.Server
-	port                      string
+	port, host                string
 	want                      bool
 }
 
@@ -231,11 +234,11 @@ func c17CertQuery(c *Ctx, cl c17CertCell, i int, rep string, listen string) {
 					if !strings.EqualFold(ql.Name, name) {
 						continue
 					}
-					if ql.SNI != "" && ql.SNI != "up.test" {
-						c.Violation("certs:sni", fmt.Sprintf("%s: server name %q presented, the URL host is up.test", cellName, ql.SNI), cs)
+					if ql.SNI != "" && ql.SNI != cl.host {
+						c.Violation("certs:sni", fmt.Sprintf("%s: server name %q presented, the URL host is %s", cellName, ql.SNI, cl.host), cs)
 					}
-					if ql.Host != "" && ql.Host != "up.test:"+cl.port {
-						c.Violation("certs:http-host", fmt.Sprintf("%s: Host %q, the URL host is up.test:%s", cellName, ql.Host, cl.port), cs)
+					if ql.Host != "" && ql.Host != cl.host+":"+cl.port {
+						c.Violation("certs:http-host", fmt.Sprintf("%s: Host %q, the URL host is %s:%s", cellName, ql.Host, cl.host, cl.port), cs)
 					}
 				}
 			}
